@@ -1061,13 +1061,14 @@ def rule_tyrule(ctx):
             "context_names": Adt(F + "context::NameContext", "NameContext", {"span": NONE, "bindings": Vec(list(binders))}),
             "context": Adt(F + "context::TypingContext", "TypingContext", {"span": Sym("s"), "bindings": Vec([])}),
             "body": Sym("body:%s" % tag)})
-    sigA = Adt(F + "context::TypingContext", "TypingContext", {"span": Sym("sa"), "bindings": Vec([])})
+    sigA = Adt(F + "context::TypingContext", "TypingContext", {"span": Sym("sa"), "bindings": Vec([binding("q", "Prd", decl("TQ"))])})
     sigB = Adt(F + "context::TypingContext", "TypingContext", {"span": Sym("sb"), "bindings": Vec([binding("p", "Prd", decl("TP"))])})
     import itertools as _it
     shapes = [seq for n_ in range(0, 4) for seq in _it.product("ABC", repeat=n_)]
 
     def clause_list(seq, pol):
-        return Vec([clause(x, ["u"] if x == "B" else [], pol, "%s%d" % (x, i)) for i, x in enumerate(seq)])
+        # each xtor has one parameter, bound under a different name in its clause (so a binder that leaks into a sibling clause shows)
+        return Vec([clause(x, ["u"] if x == "B" else (["w"] if x == "A" else []), pol, "%s%d" % (x, i)) for i, x in enumerate(seq)])
     for form, pol, table_key in (("case::Case", "Data", "ctors"), ("new::New", "Codata", "dtors")):
         n_acc = 0
         for seq in shapes:
@@ -1113,7 +1114,7 @@ def rule_tyrule(ctx):
             bodies = {e[1]: e for e in o.events if e[0] == "check" and str(e[1]).startswith("body:")}
             for i, x in enumerate(seq):
                 e = bodies.get("body:%s%d" % (x, i))
-                want_ctx = BASE + ((("u", "Prd", "decl:TP"),) if x == "B" else ())
+                want_ctx = BASE + ((("u", "Prd", "decl:TP"),) if x == "B" else ((("w", "Prd", "decl:TQ"),) if x == "A" else ()))
                 want_ty = EXP if form == "case::Case" else ("decl:RA" if x == "A" else "decl:RB")
                 if e is None:
                     problems.append("the body of the clause for %s is never checked" % x)
